@@ -199,9 +199,16 @@ def r01_9(chk, facts):
                 for y in A.walk_no_lambda(st):
                     if y.get('k') == 'CaseStmt' and y.get('lo') == 0x5c:
                         line = y.get('l')
+                        # on every way through the case: an assignment nested in an `if` or a loop of the case does not count (the
+                        # character after the backslash may be in the next chunk, nothing about it can be a condition here)
+                        conditional = set()
+                        for z in A.walk_no_lambda(y.get('sub')):
+                            if z.get('k') in ('IfStmt', 'ForStmt', 'WhileStmt', 'DoStmt', 'SwitchStmt', 'ConditionalOperator'):
+                                for w in A.walk_no_lambda(z):
+                                    if w is not z: conditional.add(id(w))
                         for z in A.walk_no_lambda(y.get('sub')):
                             at = assigned_tag(z) if z.get('k') in ('BinaryOperator', 'CXXOperatorCallExpr') else None
-                            if at and 'tag' in at[0] and at[1] is not None and at[1] != noesc: ok = True
+                            if at and 'tag' in at[0] and at[1] is not None and at[1] != noesc and id(z) not in conditional: ok = True
             chk.analysed(fn)
             site = U.site(fn, 'backslash clears noesc')
             if ok: chk.ok('R01.9', site, {'function': fn['q']})
